@@ -36,25 +36,25 @@ NOT_CLAIMED = {
 CHECKS = {
     "C04": {
         "level": "exploration",
-        "rule": "history monitor over Write/Sum/Reset sequences vs an independent one-shot SM3 model: every (length 0..L, split point) pair exhaustively, random 1..12-op histories with boundary-residue chunking, io.Copy plumbing; a class is (final length mod 64, split offset mod 64 | op shape); trivial classes: none; injected mid-message chaining values (each word 0 / all ones / equal to the IV word, all zero, random) set through in-package access to the hash state and continued by histories, model continuing from the same state; messages up to 2 MiB (512 MiB+5 in thorough: bit length beyond 32 bits)",
+        "rule": "history monitor over Write/Sum/Reset sequences vs an independent one-shot SM3 model: every (length 0..L, split point) pair exhaustively, random 1..12-op histories with boundary-residue chunking, io.Copy plumbing; a class is (final length mod 64, split offset mod 64 | op shape); trivial classes: none; injected mid-message chaining values (each word 0 / all ones / equal to the IV word, all zero, random) set through in-package access to the hash state and continued by histories, model continuing from the same state; messages up to 2 MiB (512 MiB+5 in thorough: bit length beyond 32 bits); injected BYTE COUNTS (2^29 ... 2^61-128, around every power of two) with histories continued across them, the model encoding the length from the same count",
         "assumptions": ["reference SM3 validated against GB/T 32905 examples and 409 OpenSSL digests at start of every run"],
         "units": [gt("sm3", "./sm3/", "TestVerifC04")],
     },
     "C01": {
         "level": "exploration",
-        "rule": "round-trip monitor: each case = (entry point, key encoding, digest | id,msg, nonce stream, reader chunking); digests are SOLVED so that r, s and t=(r+s) mod n take every leading-zero-byte count 1..31 and tiny values, plus random cases through Sign/SignZa/SignHashed; a class is (entry, key length, leading-zero bytes of r, s, t); trivial: short key encodings the signer refuses; nonce streams whose first in-range candidate is rejected late (r=0, r+k=n, s=0 via a solved digest) or early; nonces from a 2^-31 class of x([k]G) (fixture found by search); sequential histories with related keys (A, tail of A as a shorter key, equal values in other encodings); a hostile prelude (crafted verifications, short keys) runs first in the same process",
+        "rule": "round-trip monitor: each case = (entry point, key encoding, digest | id,msg, nonce stream, reader chunking); digests are SOLVED so that r, s and t=(r+s) mod n take every leading-zero-byte count 1..31 and tiny values, plus random cases through Sign/SignZa/SignHashed; a class is (entry, key length, leading-zero bytes of r, s, t); trivial: short key encodings the signer refuses; nonce streams whose first in-range candidate is rejected late (r=0, r+k=n, s=0 via a solved digest) or early; nonces from a 2^-31 class of x([k]G) (fixture found by search); sequential histories with related keys (A, tail of A as a shorter key, equal values in other encodings); a hostile prelude (crafted verifications, short keys) runs first in the same process; keys whose d+1 has carry-critical internal limbs",
         "assumptions": ["reference SM2 (math/big affine) validated against GM/T 0003.5 vectors and 300 OpenSSL signatures at start of every run"],
         "units": [gt("sm2", "./sm2/", "TestVerifC01")],
     },
     "C02": {
         "level": "exploration",
-        "rule": "differential monitor vs the GM/T 0003.2 signer model with an event-recording randomness source: random (d,e,stream) plus a rule matrix of streams constructed so that the first candidates hit k-range (0, n, n+1, 2^256-1), r=0, r+k=n, s=0 in sequence; invalid keys must be refused; a class is (rejection sequence, chunking, leading-zero bytes of r and s); unreduced digests (e=n, n+1, 2^256-1, FFFFFFFF||random); nonces from a 2^-31 class of x([k]G) (top 31 bits ones or zeros; fixture found by search) combined with extreme digests so that e+x1 >= 2n; hostile prelude first",
+        "rule": "differential monitor vs the GM/T 0003.2 signer model with an event-recording randomness source: random (d,e,stream) plus a rule matrix of streams constructed so that the first candidates hit k-range (0, n, n+1, 2^256-1), r=0, r+k=n, s=0 in sequence; invalid keys must be refused; a class is (rejection sequence, chunking, leading-zero bytes of r and s); unreduced digests (e=n, n+1, 2^256-1, FFFFFFFF||random); nonces from a 2^-31 class of x([k]G) (top 31 bits ones or zeros; fixture found by search) combined with extreme digests so that e+x1 >= 2n; hostile prelude first; nonces from the rare-x1 fixture with digests on both sides of e + x1 = n and 2n; digests and keys SOLVED so that r+k, s, r and d+1 have carry-critical internal (Montgomery) limbs",
         "assumptions": ["reference SM2 validated against GM/T 0003.5 vectors and 300 OpenSSL signatures at start of every run"],
         "units": [gt("sm2", "./sm2/", "TestVerifC02")],
     },
     "C03": {
         "level": "exploration",
-        "rule": "differential monitor vs the GM/T 0003.2 verifier model on hostile byte strings: valid tuples built without a private key (e solved from chosen s,t), solved near-misses breaking exactly one side condition (r=0, s=0, r+n, s+n, r+s=n, infinity, key x+p), all 1,280 single-bit flips of N tuples, every wrong argument length 0..40, off-curve keys, garbage; wrappers Verify/VerifyZa on derived inputs; a class is (construction label, model verdict); tuples built from a CHOSEN digest and a CHOSEN point R (P = t^-1(R-[s]G)): e>=n, e=2^256-1, x_R within a few of p so that e+x1>=2n; non-canonical keys x0+p for on-curve x0 anywhere in [0,2^256-p); sequential verification histories over related keys (P,-P,[2]P,Q,-Q,G,-G) with valid and invalid signatures incl. tiny (r+s) mod n; canary key derivations after the workload",
+        "rule": "differential monitor vs the GM/T 0003.2 verifier model on hostile byte strings: valid tuples built without a private key (e solved from chosen s,t), solved near-misses breaking exactly one side condition (r=0, s=0, r+n, s+n, r+s=n, infinity, key x+p), all 1,280 single-bit flips of N tuples, every wrong argument length 0..40, off-curve keys, garbage; wrappers Verify/VerifyZa on derived inputs; a class is (construction label, model verdict); tuples built from a CHOSEN digest and a CHOSEN point R (P = t^-1(R-[s]G)): e>=n, e=2^256-1, x_R within a few of p so that e+x1>=2n; non-canonical keys x0+p for on-curve x0 anywhere in [0,2^256-p); sequential verification histories over related keys (P,-P,[2]P,Q,-Q,G,-G) with valid and invalid signatures incl. tiny (r+s) mod n; canary key derivations after the workload; chosen R with x1 = 0 (finite point) and x1 in [n, p)",
         "assumptions": ["reference SM2 validated against GM/T 0003.5 vectors and 300 OpenSSL signatures at start of every run"],
         "units": [gt("sm2", "./sm2/", "TestVerifC03")],
     },
@@ -66,25 +66,25 @@ CHECKS = {
     },
     "C13": {
         "level": "exploration",
-        "rule": "ZA vs SM3(ENTL||id||a||b||G||P) for EVERY id length 0..8193 plus 10 larger ones; Sign/SignZa/SignHashed and Verify/VerifyZa/VerifyHashed equivalence under one recorded stream for every message length 0..L; 300 OpenSSL-produced signatures must verify; a class is (id length mod 64 | exact near 8192, (ZA||M) length mod 64); ids of 8192+ bytes at every length around k*8192 (k=1..9) with default-id / repeated / zero / random contents, also through Sign/Verify; call histories on REUSED id/key/message buffers overwritten in place between calls; hostile prelude first",
+        "rule": "ZA vs SM3(ENTL||id||a||b||G||P) for EVERY id length 0..8193 plus 10 larger ones; Sign/SignZa/SignHashed and Verify/VerifyZa/VerifyHashed equivalence under one recorded stream for every message length 0..L; 300 OpenSSL-produced signatures must verify; a class is (id length mod 64 | exact near 8192, (ZA||M) length mod 64); ids of 8192+ bytes at every length around k*8192 (k=1..9) with default-id / repeated / zero / random contents, also through Sign/Verify; call histories on REUSED id/key/message buffers overwritten in place between calls; hostile prelude first; per-user constants ZA, x, y, d handed over as sub-slices of one caller record (adjacent / separated), record snapshot-compared",
         "assumptions": ["reference SM2/SM3 validated against standard vectors and OpenSSL fixtures at start of every run"],
         "units": [gt("sm2", "./sm2/", "TestVerifC13")],
     },
     "C19": {
         "level": "fault_enumeration",
-        "rule": "scripted faulty io.Reader: every byte position of the first failure (0..32*(rejected+1)+1) x streams starting with 0..3 rejected candidates x {io.EOF, io.ErrUnexpectedEOF, custom error} x {error with / after the last data} x chunking {full,1,7,31} x (0,nil) reads, for GenerateKey, SignHashed, SignZa, Sign; oracle = model run on the bytes available before the failure; a class is (entry, rejected count, failing candidate+offset, error kind, chunking); a first candidate rejected late (r=0, r+k=n, s=0 via a solved digest) followed by a failure at every offset of the redraw",
+        "rule": "scripted faulty io.Reader: every byte position of the first failure (0..32*(rejected+1)+1) x streams starting with 0..3 rejected candidates x {io.EOF, io.ErrUnexpectedEOF, custom error} x {error with / after the last data} x chunking {full,1,7,31} x (0,nil) reads, for GenerateKey, SignHashed, SignZa, Sign; oracle = model run on the bytes available before the failure; a class is (entry, rejected count, failing candidate+offset, error kind, chunking); a first candidate rejected late (r=0, r+k=n, s=0 via a solved digest) followed by a failure at every offset of the redraw; the same failure positions through other source TYPES (io.ByteReader, bufio default/16-byte, LimitReader, MultiReader) and as TRANSIENT failures (reported once, data continues)",
         "assumptions": ["quick tier skips half of the interior (position x kind x chunk) cross-product; thorough enumerates it completely"],
         "units": [gt("sm2", "./sm2/", "TestVerifC19")],
     },
     "C20": {
         "level": "exploration",
-        "rule": "ConstantTimeCmp vs bytes.Compare: ALL 65,536 one-byte pairs, all pairs over {00,7f,ff} up to length 5 (6 thorough), single differing byte at every position for lengths 1..64 (with and without a randomised tail), sparse differences (two bytes pulling opposite ways, only the high/low halves of 2/4/8/16-byte words aligned from either end, every k-th byte), borrow chains, extremes, l<len; DecomposeNAF for w=1..7 vs the recoding definition (digits zero/odd, |d|<2^w, >=w zeros after a non-zero, weighted sum) on single bits, 2^k-1, 2^256-2^k, byte patterns, runs at every bit offset, n, p and random 256-bit inputs; a class is (helper, construction, length or w); digit buffers longer than n (extra slots stay zero, carry at index n-1)",
+        "rule": "ConstantTimeCmp vs bytes.Compare: ALL 65,536 one-byte pairs, all pairs over {00,7f,ff} up to length 5 (6 thorough), single differing byte at every position for lengths 1..64 (with and without a randomised tail), sparse differences (two bytes pulling opposite ways, only the high/low halves of 2/4/8/16-byte words aligned from either end, every k-th byte), borrow chains, extremes, l<len; DecomposeNAF for w=1..7 vs the recoding definition (digits zero/odd, |d|<2^w, >=w zeros after a non-zero, weighted sum) on single bits, 2^k-1, 2^256-2^k, byte patterns, runs at every bit offset, n, p and random 256-bit inputs; a class is (helper, construction, length or w); digit buffers longer than n (extra slots stay zero, carry at index n-1); all combinations of operand lengths (exactly l, l+1, l+k, independently for a and b) with equal/different tails and spare capacity",
         "assumptions": ["oracles are bytes.Compare and math/big from the Go standard library"],
         "units": [gt("utils", "./utils/", "TestVerifC20")],
     },
     "C16": {
         "level": "exploration",
-        "rule": "differential monitor vs math/big for both fields: operands from all 4-limb combinations of a carry-critical limb alphabet (0,1,2,2^32+-1,2^63,2^64-1, limbs of m, m-1, 2^256 mod m, m>>1; every 5th combination in quick, all in thorough) plus random; ops add/sub/opp/mul/square/select/bytes/ToBigInt/IsZero/Equal incl. aliased receivers, partners chosen to hit a+b=0 and a+b=m-1; Invert vs ModInverse and x*inv=1, Invert(0)=0; SetBytes rejects [m,2^256) at the edges, at every first-exceeding byte, randomly, and wrong lengths; MultiSelect on widths 1..127; a class is (field, top and low limb pattern | random | decoding class); the internal (Montgomery) limbs of EVERY result must be below the modulus; operands solved so that results land on representation edges (0,1,2,m-1,m-2,2^256-m..., 2^64, 2^128, 2^192-1, 2^255); decodings whose Montgomery form is below 2^256-m",
+        "rule": "differential monitor vs math/big for both fields: operands from all 4-limb combinations of a carry-critical limb alphabet (0,1,2,2^32+-1,2^63,2^64-1, limbs of m, m-1, 2^256 mod m, m>>1; every 5th combination in quick, all in thorough) plus random; ops add/sub/opp/mul/square/select/bytes/ToBigInt/IsZero/Equal incl. aliased receivers, partners chosen to hit a+b=0 and a+b=m-1; Invert vs ModInverse and x*inv=1, Invert(0)=0; SetBytes rejects [m,2^256) at the edges, at every first-exceeding byte, randomly, and wrong lengths; MultiSelect on widths 1..127; a class is (field, top and low limb pattern | random | decoding class); the internal (Montgomery) limbs of EVERY result must be below the modulus; operands solved so that results land on representation edges (0,1,2,m-1,m-2,2^256-m..., 2^64, 2^128, 2^192-1, 2^255); decodings whose Montgomery form is below 2^256-m; operands given by their INTERNAL (Montgomery) limbs over the limb alphabet, results compared limb for limb; operands SOLVED so that the accumulator before the final conditional subtraction of every multiplication/squaring takes each patterned value in [m, 2m) (realised ones counted); MultiSelect over every width 1..130, 200, 254, 255",
         "assumptions": ["oracle is math/big", "the exact inversion exponents (p-2, n-2) are established by the op-trace monitor: every sm2Mul/sm2Square (sm2ScalarMul/Square) call of one inversion is recorded by breakpoints and replayed on exponents; because the chain is straight-line code one trace characterises all inputs"],
         "units": [gt("fiat", "./sm2/internal/fiat/", "TestVerifC16"), {"name": "optrace", "engine": "engine_optrace"}],
     },
@@ -96,50 +96,50 @@ CHECKS = {
     },
     "C15": {
         "level": "exploration",
-        "rule": "Add/Double/Negate/Select over all ordered pairs of a pool (inf, +-G, +-2..5G, (n+-1)/2 G, x=0 point, random) x random projective rescaling (lambda in {1,p-1,2,random}) x aliasing (fresh, q=p1, q=p2, p1=p2, q=p1=p2), result compared in affine form with the model and checked on the projective curve equation; Bytes/Bytes_Unsafe/GetAffineX/GetAffineX_Unsafe agreement and decode(encode)=id; hostile decodings (every length 0..70, every prefix byte, compressed, bit flips, x+p, y+p, random) must fail and leave the receiver unchanged; a class is (op, relation of operands, aliasing | encoding class); projective scalings with limb patterns; decoded points used as receivers; a stateful random walk over a pool of long-lived point objects (all mutators, ScalarMult, ScalarMixedMult, conversions) with a shadow model, all objects compared after every step; package-level state (generator, b, 1, [1]G) checked after the workload",
+        "rule": "Add/Double/Negate/Select over all ordered pairs of a pool (inf, +-G, +-2..5G, (n+-1)/2 G, x=0 point, random) x random projective rescaling (lambda in {1,p-1,2,random}) x aliasing (fresh, q=p1, q=p2, p1=p2, q=p1=p2), result compared in affine form with the model and checked on the projective curve equation; Bytes/Bytes_Unsafe/GetAffineX/GetAffineX_Unsafe agreement and decode(encode)=id; hostile decodings (every length 0..70, every prefix byte, compressed, bit flips, x+p, y+p, random) must fail and leave the receiver unchanged; a class is (op, relation of operands, aliasing | encoding class); projective scalings with limb patterns; decoded points used as receivers; a stateful random walk over a pool of long-lived point objects (all mutators, ScalarMult, ScalarMixedMult, conversions) with a shadow model, all objects compared after every step; package-level state (generator, b, 1, [1]G) checked after the workload; receivers that are VALUE COPIES of an operand (c := *p; slice elements) sharing its coordinate elements",
         "assumptions": ["reference SM2 validated at start of every run"],
         "units": [gt("internal", "./sm2/internal/", "TestVerifC15")],
     },
     "C05": {
         "level": "exploration",
-        "rule": "differential monitor vs a reference SM4 whose S-box is computed algebraically: per key (0^128, 1^128, standard example, all 128 single-bit keys, byte repeats, random) the portable and assembly key schedules (enc and dec arrays), portable x1/x2, vector kernels x1/x2/x4/x8/x16 with distinct blocks in every lane, a probe rotated through all 16 lanes, decrypt(encrypt), in-place, S-box covering set (all 256 values in each byte position of round 1); public Encrypt/Decrypt with the accelerated path enabled and disabled, key slice overwritten after construction, key lengths 0..40; a class is (path, key class); many goroutines constructing ciphers for different keys at the same time",
+        "rule": "differential monitor vs a reference SM4 whose S-box is computed algebraically: per key (0^128, 1^128, standard example, all 128 single-bit keys, byte repeats, random) the portable and assembly key schedules (enc and dec arrays), portable x1/x2, vector kernels x1/x2/x4/x8/x16 with distinct blocks in every lane, a probe rotated through all 16 lanes, decrypt(encrypt), in-place, S-box covering set (all 256 values in each byte position of round 1); public Encrypt/Decrypt with the accelerated path enabled and disabled, key slice overwritten after construction, key lengths 0..40; a class is (path, key class); many goroutines constructing ciphers for different keys at the same time; object LIFETIME histories: AEADs derived from a Block are used, dropped, collected and finalized (GC + finalizer barrier) while the Block is judged before and after",
         "assumptions": ["reference SM4 validated against GB/T 32907 example (plus 1,000,000-fold iteration in thorough) and 2,000 OpenSSL KATs at start of every run", ARM64_NOTE],
         "units": [gt("sm4", "./sm4/", "TestVerifC05")],
     },
     "C06": {
         "level": "exploration",
-        "rule": "Seal(nil,...) vs SP 800-38D GCM over the reference SM4 (bitwise GF(2^128)), on the fused-assembly path and on the std-lib generic path over the portable cipher: every plaintext length and every aad length 0..1100 (a seed-rotated third plus all class lengths in quick; all in thorough), nonce lengths 1..300 at tag 16, tags 12..16 at nonce 12, length-class cross product, counter wrap via nonces SOLVED through GF(2^128) so that the counter wraps j=0..80 (300 thorough) blocks into the message, 700 OpenSSL KATs; a class is (path, kernel combination n256/b128/b64/b32/b16/tail, GHASH class of aad, nonce class, tag size); long-lived AEAD objects serving random sequences of messages; one AEAD shared by all workers sealing concurrently; lengths of 2 MiB; additional data of 2^29+ bytes judged by an O(1) oracle (leading zero blocks leave GHASH at zero)",
+        "rule": "Seal(nil,...) vs SP 800-38D GCM over the reference SM4 (bitwise GF(2^128)), on the fused-assembly path and on the std-lib generic path over the portable cipher: every plaintext length and every aad length 0..1100 (a seed-rotated third plus all class lengths in quick; all in thorough), nonce lengths 1..300 at tag 16, tags 12..16 at nonce 12, length-class cross product, counter wrap via nonces SOLVED through GF(2^128) so that the counter wraps j=0..80 (300 thorough) blocks into the message, 700 OpenSSL KATs; a class is (path, kernel combination n256/b128/b64/b32/b16/tail, GHASH class of aad, nonce class, tag size); long-lived AEAD objects serving random sequences of messages; one AEAD shared by all workers sealing concurrently; lengths of 2 MiB; additional data of 2^29+ bytes judged by an O(1) oracle (leading zero blocks leave GHASH at zero); lengths congruent to the special ones modulo 2^8 / 2^16 (2^24 thorough) for nonce, aad and plaintext; object lifetime histories (sibling AEADs / the Block collected and finalized, survivors re-judged)",
         "assumptions": ["reference GCM validated against RFC 8998, 700 OpenSSL SM4-GCM KATs and the std-lib generic GCM at start of every run; nonces longer than 128 bytes have only the model and the std-lib generic mode as oracles (OpenSSL limit)", ARM64_NOTE],
         "units": [gt("sm4", "./sm4/", "TestVerifC06")],
     },
     "C07": {
         "level": "exploration",
-        "rule": "Open(nil,...) vs the reference GCM verdict on both paths: every message of the C06 length-class list is opened authentically and under ~10 forgeries (bit flips in ciphertext/tag/nonce/aad, truncation, extension); a set of messages gets the FULL mutation treatment: every single-bit flip of ciphertext, tag, nonce and aad, every truncation, 1..32-byte extensions at both ends, swapped nonce/aad, every length shorter than the tag; a class is (path, mutation kind, message length class); the dst backing array is inspected after a rejected Open (buffer-reuse and in-place idioms: no recognisable decryption may be left); the same buffers re-opened at the end; length-wrap forgeries with 2^29 zero bytes of additional data",
+        "rule": "Open(nil,...) vs the reference GCM verdict on both paths: every message of the C06 length-class list is opened authentically and under ~10 forgeries (bit flips in ciphertext/tag/nonce/aad, truncation, extension); a set of messages gets the FULL mutation treatment: every single-bit flip of ciphertext, tag, nonce and aad, every truncation, 1..32-byte extensions at both ends, swapped nonce/aad, every length shorter than the tag; a class is (path, mutation kind, message length class); the dst backing array is inspected after a rejected Open (buffer-reuse and in-place idioms: no recognisable decryption may be left); the same buffers re-opened at the end; length-wrap forgeries with 2^29 zero bytes of additional data; nonce/aad/plaintext lengths congruent to the special ones modulo 2^8 / 2^16 (2^24 thorough)",
         "assumptions": ["reference GCM validated at start of every run", ARM64_NOTE],
         "units": [gt("sm4", "./sm4/", "TestVerifC07")],
     },
     "C10": {
         "level": "exploration",
-        "rule": "buffer-contract monitor on both paths: Seal/Open with 10 dst shapes (nil, empty non-nil, len=cap prefixes 1/16/17, exact capacity, larger capacity, one byte short) plus the in-place idioms Seal(pt[:0]) / Open(ct[:0]) over all message length classes; result must equal dst||reference output; key, nonce, aad, message and ciphertext live in PROT_READ pages (a write faults at the instruction) and are snapshot-compared; every call is executed twice on the same buffers; SM2: Sign/SignZa/SignHashed/Verify*/ZA/DerivePublic/CheckOnCurve/TestPrivateKey with every input slice in PROT_READ pages (mid/end/start placement), each twice, answers compared with the model; SM3: Sum(in) for 9 (len,cap) shapes and Write from read-only pages; a class is (path, op, dst shape, kernel combination | sm2 op, placement | sm3 shape); every dst prefix length 0..200 with and without room; SM2 inputs carved as sub-slices out of one record (random field order, spare capacity reaching into the next field), the whole record snapshot-compared after every call",
+        "rule": "buffer-contract monitor on both paths: Seal/Open with 10 dst shapes (nil, empty non-nil, len=cap prefixes 1/16/17, exact capacity, larger capacity, one byte short) plus the in-place idioms Seal(pt[:0]) / Open(ct[:0]) over all message length classes; result must equal dst||reference output; key, nonce, aad, message and ciphertext live in PROT_READ pages (a write faults at the instruction) and are snapshot-compared; every call is executed twice on the same buffers; SM2: Sign/SignZa/SignHashed/Verify*/ZA/DerivePublic/CheckOnCurve/TestPrivateKey with every input slice in PROT_READ pages (mid/end/start placement), each twice, answers compared with the model; SM3: Sum(in) for 9 (len,cap) shapes and Write from read-only pages; a class is (path, op, dst shape, kernel combination | sm2 op, placement | sm3 shape); every dst prefix length 0..200 with and without room; SM2 inputs carved as sub-slices out of one record (random field order, spare capacity reaching into the next field), the whole record snapshot-compared after every call; cross-argument aliasing allowed by crypto/cipher: additional data (and the nonce) are the bytes dst already holds (Seal(record[:hdr], nonce, record[hdr:], record[:hdr]) and the way back)",
         "assumptions": ["reference GCM/SM3/SM2 validated at start of every run", ARM64_NOTE],
         "units": [gt("sm4", "./sm4/", "TestVerifC10SM4"), gt("sm2", "./sm2/", "TestVerifC10SM2"), gt("sm3", "./sm3/", "TestVerifC10SM3")],
     },
     "C11": {
         "level": "exploration",
-        "rule": "guard-page monitor: every pointer argument in its own mapping with PROT_NONE pages on both sides, end-abutting and start-abutting; Block Encrypt/Decrypt for dst/src lengths 0..32 (and short-len/large-cap heap slices), Seal/Open/forged/short-ciphertext for every plaintext length 0..1100 (0..300 plus a seed-rotated fifth and all class lengths in quick), aad 0..300, nonce 1..300, tags 12..16, dst nil or exact-capacity guarded; assembly routines x1..x16, expandKeyAsm, gHashBlocks (1..40 blocks), sealAsm/openAsm called directly with exact-size buffers and round keys laid out as the cipher object (enc then dec, nothing after); a hardware fault = out-of-range access, an ordinary panic on too-short arguments = detected misuse; a class is (path, op, residues mod 16, tag, placement, dst kind)",
+        "rule": "guard-page monitor: every pointer argument in its own mapping with PROT_NONE pages on both sides, end-abutting and start-abutting; Block Encrypt/Decrypt for dst/src lengths 0..32 (and short-len/large-cap heap slices), Seal/Open/forged/short-ciphertext for every plaintext length 0..1100 (0..300 plus a seed-rotated fifth and all class lengths in quick), aad 0..300, nonce 1..300, tags 12..16, dst nil or exact-capacity guarded; assembly routines x1..x16, expandKeyAsm, gHashBlocks (1..40 blocks), sealAsm/openAsm called directly with exact-size buffers and round keys laid out as the cipher object (enc then dec, nothing after); a hardware fault = out-of-range access, an ordinary panic on too-short arguments = detected misuse; a class is (path, op, residues mod 16, tag, placement, dst kind); sm2 / sm3 / utils units: every byte-string argument of every exported SM2 function, of SM3 Write/SumSM3 and of ConstantTimeCmp ends on the last accessible byte with a CAPACITY reaching over the PROT_NONE page (an append or over-read faults), or starts on the first one, or lies inside a caller record with canaries (rotated field order, gaps 0/1/8) that is snapshot-compared; answers compared with the model",
         "assumptions": ["a positive control (deliberate 1-byte over-read) must fault in every run", "faults are converted by debug.SetPanicOnFault; red zones are one page wide; non-adjacent accesses are covered by the second monitor: the single-step traces of all assembly routines are audited offline, every effective address (with its access size) must lie inside a buffer handed to the routine, its argument frame or read-only data of the binary (masked vector accesses are audited with the size of one element, the guard pages judge their true extent)", ARM64_NOTE],
         "units": [gt("sm4", "./sm4/", "TestVerifC11"), gt("sm2", "./sm2/", "TestVerifC11SM2"), gt("sm3", "./sm3/", "TestVerifC11SM3"), gt("utils", "./utils/", "TestVerifC11Utils"), {"name": "vtrace-audit", "engine": "engine_vtrace", "prop": "C11", "shards": 16}],
     },
     "C18": {
         "level": "exploration",
         "exhaustive": True,
-        "rule": "exhaustive walk of live package state: all 4 SM2 comb schemes incl. remainder tables (every point = Montgomery form of the stated multiple of G, computed by the reference model, limbs canonical), curve constants; SM4 sbox (algebraic derivation), s0..s3 = L(sbox<<24/16/8/0), ck, fk; SM3 Tj<<<(j mod 32), IV; amd64 assembly constants observed through execution: GFNI affine macro on all 256 bytes (and every lane), FK<>/CK<> recovered from expandKeyAsm outputs by inverting T', GHASH multiplier (GCM_POLY, bit-reversal masks, lane shuffles) on all 128x128 basis pairs in the 1-way regime and in the 4-way regime (all 8 block positions in thorough, one rotating position in quick); a class is (table, entry index mod 64 | constant family); the SM2 tables are walked at start AND again after hostile use of every routine that reads them (they are live package state)",
+        "rule": "exhaustive walk of live package state: all 4 SM2 comb schemes incl. remainder tables (every point = Montgomery form of the stated multiple of G, computed by the reference model, limbs canonical), curve constants; SM4 sbox (algebraic derivation), s0..s3 = L(sbox<<24/16/8/0), ck, fk; SM3 Tj<<<(j mod 32), IV; amd64 assembly constants observed through execution: GFNI affine macro on all 256 bytes (and every lane), FK<>/CK<> recovered from expandKeyAsm outputs by inverting T', GHASH multiplier (GCM_POLY, bit-reversal masks, lane shuffles) on all 128x128 basis pairs in the 1-way regime and in the 4-way regime (all 8 block positions in thorough, one rotating position in quick); a class is (table, entry index mod 64 | constant family); the SM2 tables are walked at start AND again after hostile use of every routine that reads them (they are live package state); FIRST USE in fresh processes (16 trials quick, 80 thorough): only the model runs before a barrier, then 48 goroutines make the process's first base multiplications through all schemes, results vs model, each goroutine walks the live tables after its own first call and once more at the end; table entries are re-resolved from the live package variables on every walk",
         "assumptions": ["reference models validated at start of every run", "arm64 data blocks (asm_arm64.s, gcm_arm64.s) cannot be executed in this sandbox and are not claimed", "the static DATA blocks of the amd64 assembly (Shuffle, Shuffle1, Shuffle2, AND_MASK, LOWER_MASK, GCM_POLY, FK, CK, Counter_Add1..3) are additionally read from the running test binary's own memory at the addresses of its symbol table and compared with their derivations (reaches entries no realistic input length exercises); SHUFFLE_X_LANES / MERGE_H01 / MERGE_H23 are implementation-internal permutations without an external derivation and are judged only through execution (gHashBlocks, C06)"],
         "units": [gt("internal", "./sm2/internal/", "TestVerifC18SM2"), gt("sm4", "./sm4/", "TestVerifC18SM4"), gt("sm3", "./sm3/", "TestVerifC18SM3"), gt("internal-first-use", "./sm2/internal/", "TestVerifC18FirstUse"), {"name": "asmdata", "engine": "engine_asmdata"}],
     },
     "C17": {
         "level": "exploration",
-        "rule": "stress under the Go race detector: 16..64 goroutines x mixed Encrypt/Decrypt/Seal/Open/forged-Open on ONE Block and ONE AEAD with key, nonce, aad, message and ciphertext buffers shared and write-protected (PROT_READ, so assembly writes fault), both paths, GOMAXPROCS 16/4/2, Gosched between ops; 16..48 goroutines x SignHashed/VerifyHashed/DerivePublic/GenerateKey/Sign+Verify/crafted invalid verifications ((r+s) mod n tiny, one-hot s)/sm3 sharing 4 key sets; truncated tags and non-standard nonce sizes rotate per round; ciphers are constructed concurrently for other keys; every concurrent result compared with the serially precomputed model result (objects are immutable, so this is the linearizability condition); round keys snapshot before/after; race reports deduplicated by repository frames; overlap measured with an atomic in-flight counter (no overlap = inconclusive); a class is (path, workers, GOMAXPROCS)",
+        "rule": "stress under the Go race detector: 16..64 goroutines x mixed Encrypt/Decrypt/Seal/Open/forged-Open on ONE Block and ONE AEAD with key, nonce, aad, message and ciphertext buffers shared and write-protected (PROT_READ, so assembly writes fault), both paths, GOMAXPROCS 16/4/2, Gosched between ops; 16..48 goroutines x SignHashed/VerifyHashed/DerivePublic/GenerateKey/Sign+Verify/crafted invalid verifications ((r+s) mod n tiny, one-hot s)/sm3 sharing 4 key sets; truncated tags and non-standard nonce sizes rotate per round; ciphers are constructed concurrently for other keys; every concurrent result compared with the serially precomputed model result (objects are immutable, so this is the linearizability condition); round keys snapshot before/after; race reports deduplicated by repository frames; overlap measured with an atomic in-flight counter (no overlap = inconclusive); a class is (path, workers, GOMAXPROCS); object lifetimes under concurrency (sibling AEADs collected and finalized while goroutines use the Block and a surviving AEAD); FIRST USE in fresh processes: 40 goroutines make the process's first calls of all SM2 entry points at once under the race detector (5 trials quick, 24 thorough)",
         "assumptions": ["the race detector sees Go-side accesses only; assembly writes are observed through page protection of the shared inputs, not of the cipher object itself (compared by snapshot)", "porcupine is not used: there is no mutable shared object whose history needs a linearizability search", ARM64_NOTE],
         "units": [gt("sm4-race", "./sm4/", "TestVerifC17SM4", race=True), gt("sm2-race", "./sm2/", "TestVerifC17SM2", race=True), gt("sm2-race-first-use", "./sm2/", "TestVerifC17FirstUse", race=True)],
     },
@@ -147,7 +147,7 @@ CHECKS = {
         "level": "exploration",
         "engine_name": "memcheck taint sanitizer",
         "technique": "runtime monitoring: Valgrind/memcheck as a dynamic taint sanitizer (secrets marked undefined by client requests) over the real SM2 code, reports judged offline against verdict-site and deny rules",
-        "rule": "each case = one primitive or entry point executed under memcheck with its secret marked undefined: Level 1 (strict, primitives in isolation: ConstantTimeCmp l=0..64, both SetBytes, field/scalar arithmetic, both Fermat inversions, MultiSelect widths 15..127 all window values, all four comb schemes, ScalarMult lengths 1..40, point add/double/select, safe Bytes/GetAffineX, TestPrivateKey) allows reports only at verdict sites lexically outside every loop (ranges computed from the current source with go/parser); Level 2 (SignHashed, GenerateKey, DerivePublic, one taint source per run) applies deny rules V1 Euclid/division, V2 report inside curve/field/table arithmetic, V3 exit inside a comparison loop; two planted gadgets must be reported in every process; a class is a tainted scenario",
+        "rule": "each case = one primitive or entry point executed under memcheck with its secret marked undefined: Level 1 (strict, primitives in isolation: ConstantTimeCmp l=0..64, both SetBytes, field/scalar arithmetic, both Fermat inversions, MultiSelect widths 15..127 all window values, all four comb schemes, ScalarMult lengths 1..40, point add/double/select, safe Bytes/GetAffineX, TestPrivateKey) allows reports only at verdict sites lexically outside every loop (ranges computed from the current source with go/parser); Level 2 (SignHashed, GenerateKey, DerivePublic, one taint source per run) applies deny rules V1 Euclid/division, V2 report inside curve/field/table arithmetic, V3 exit inside a comparison loop; two planted gadgets must be reported in every process; a class is a tainted scenario; thorough tier adds paths: first nonce rejected LATE (r=0, r+k=n, s=0; digests solved offline, redraw confirmed), randomness through 1-byte/7-byte reads, bufio and io.ByteReader sources, private key and nonce tainted together, short key encodings in DerivePublic, key generation whose first candidate is n-1",
         "assumptions": ["memcheck tracks the data flow along the executed path for all secret values at once; paths not executed are not covered", "memcheck build uses go1.26.8/amd64 with -tags valgrind (the default toolchain binary is not the one observed)", "instruction-level timing (variable-latency multiply/divide) is invisible", "reports in glue code outside the operations the statement enumerates (math/big finishing of s, the *_Unsafe affine conversions, rejection-loop verdicts) are counted in the evidence but are not violations (DESIGN.md C08)"],
         "units": [{"name": "memcheck", "engine": "engine_memcheck"}],
     },
